@@ -22,7 +22,7 @@ func init() {
 		LevelText: "Decoder totality decided structurally for all paths: every index/slice/fixed-width read on bytes that derive from a NATS message is proven in bounds from the length guards that dominate it; no explicit panic in the envelope decoders; each envelope type has exactly one writer and one reader that agree on constant and message type; the checksum branch cannot return success without CRC equality; raw payloads are stored verbatim. Protobuf's own decoder and semantic validity of decoded values are not decided. No panic that a sender can bring about remains in a NATS callback or in the functions that marshal an ack; the malformed-message-set error reaches the handler's identity test unwrapped.",
 		LevelNote: "Trusted: go/ssa, the taint closure (does not follow heap fields), github.com/golang/protobuf Unmarshal being total, the prover's arithmetic (difference constraints over dominating branch conditions; integer overflow not modelled).",
 		DesignRef: "DESIGN.md §4 C14",
-		Explanation: "R14.1 bounds on untrusted bytes (taint closure from nats.Msg.Data, all module functions reached), R14.2 marshal/unmarshal table agreement per msgType and header layout agreement, R14.3 CRC guard, R14.4 raw passthrough / envelope copy in natsToProtoMessage, R14.5 optional sub-messages of propagated requests are nil-checked before dereference. R14.5 also covers messages nested in an optional sub-message; R14.6 the malformed-message-set sentinel arrives unwrapped at handleReplicationResponse's identity test; R14.7 every panic in a NATS callback or ack-marshalling function is one of six listed ones that a sender cannot cause." +
+		Explanation: "R14.1 bounds on untrusted bytes (taint closure from nats.Msg.Data, all module functions reached), R14.2 marshal/unmarshal table agreement per msgType and header layout agreement, R14.3 CRC guard, R14.4 raw passthrough / envelope copy in natsToProtoMessage, R14.5 optional sub-messages of propagated requests are nil-checked before dereference. R14.5 also covers messages nested in an optional sub-message; R14.6 the malformed-message-set sentinel arrives unwrapped at handleReplicationResponse's identity test; R14.7 every panic in a NATS callback or ack-marshalling function is one of six listed ones that a sender cannot cause. R14.9 the message built for a raw (non-envelope) payload waives the expected offset (Offset = -1), so a stream with optimistic concurrency control stores it like any other; R14.4's field copies are demanded on the envelope branch and only constants elsewhere. " +
 			"NOT decided: protobuf decoding itself, semantic validity of decoded values, resource exhaustion, round-trip equality as a value property.",
 	})
 }
@@ -371,11 +371,33 @@ func runC14(c *eng.Ctx) {
 				if src == "" {
 					src = fld
 				}
-				for _, st := range eng.FieldStores(fn, func(fa *ssa.FieldAddr) bool { return fieldIs(fa, fo) }) {
+				// On the envelope branch the field is the decoded message's; anywhere else (the literal that builds the
+				// message, the raw-payload branch) only a constant may be stored — R14.9 says which one for Offset.
+				fromEnvelope := func(x ssa.Instruction) bool {
+					st, isSt := x.(*ssa.Store)
+					if !isSt {
+						return false
+					}
+					fa, isFA := st.Addr.(*ssa.FieldAddr)
+					if !isFA || !fieldIs(fa, fo) {
+						return false
+					}
 					f, base := eng.FieldRead(st.Val)
-					ok := f != nil && f.Name() == src && eng.Same(gv)(base)
-					c.Check(ok, "field "+fld+" copied from the envelope", c.Pos(st), "copied from the decoded message's "+src, "field "+fld+" is set from "+eng.Describe(st.Val)+", not from the decoded envelope's "+src)
+					return f != nil && f.Name() == src && eng.Same(gv)(base)
 				}
+				for _, st := range eng.FieldStores(fn, func(fa *ssa.FieldAddr) bool { return fieldIs(fa, fo) }) {
+					if fromEnvelope(st) {
+						g, w := eng.GuardedBy(fn, st, notNil)
+						c.Check(g, "field "+fld+" copied from the envelope", c.Pos(st), "copied from the decoded message's "+src+" where an envelope was decoded", "the decoded message's "+src+" is read on a path where nothing was decoded: "+w.String())
+						continue
+					}
+					_, isConst := eng.Strip(st.Val).(*ssa.Const)
+					g, _ := eng.GuardedBy(fn, st, notNil)
+					c.Check(isConst && !g, "field "+fld+" outside the envelope branch is a constant", c.Pos(st), "a constant, stored where no envelope was decoded (or before the test)", "field "+fld+" is set from "+eng.Describe(st.Val)+", not from the decoded envelope's "+src)
+				}
+				q := &eng.PathQuery{Fn: fn, FromEntry: true, Target: func(x ssa.Instruction) bool { _, isRet := x.(*ssa.Return); return isRet }, CutInstr: fromEnvelope, CutEdges: isNil}
+				w := q.Find()
+				c.Check(w == nil, "an envelope's "+fld+" reaches the stored message", p.Pos(fn.Pos()), "every path over the envelope branch copies the decoded message's "+src, "an envelope is decoded but its "+src+" is not copied ("+w.String()+")")
 			}
 		}
 	}
@@ -417,7 +439,7 @@ func runC14(c *eng.Ctx) {
 	ruleEncodeFailureIsAnError(c)
 
 	c.Rule("R14.9", "K1")
-	// PENDING-F67 ruleRawPayloadWaivesExpectedOffset(c)
+	ruleRawPayloadWaivesExpectedOffset(c)
 
 }
 
